@@ -1,4 +1,12 @@
-"""R-env (C04 part, order inside ONE operation): the derived class `rewrittenBeforeRead` needs that, inside a construct / reset operation,
+"""R-env (C04 part, order inside ONE operation).
+
+Since the F-10 repair the only process global that an operation re-writes and then reads is the state of the GENERATORS: `watch_seed` monitors
+that — a function that draws from a global generator (inventory `rngUses`) entered before the operation's `random.seed` call is
+`draw-before-seed`, an operation called with a seed that returns without having called it is `not-seeded`; the package functions entered
+before the seeding are handed back for the cross-check of the static call graph. The placeholder monitor below stays for any readable
+run-time written global that may (re)appear.
+
+The derived class `rewrittenBeforeRead` needs that, inside a construct / reset operation,
 the operation's write of a run-time written global comes BEFORE every read of it, and that the write happens at all.
 
 Dynamic extraction with `sys.setprofile`: before the operation every readable run-time written global (`module:Class.attr`) is replaced by a
@@ -55,6 +63,12 @@ def _placeholder(v: Any) -> Any:
 
 class Monitor:
     def __init__(self, names: List[str], inv, roles: Dict[str, Tuple[List[str], bool]]):
+        self.drawers: Dict[Any, str] = {}
+        for (_, f, c) in inv.rng:
+            if c.split(".")[-1] != "seed":
+                code = _code_of(f)
+                if code is not None:
+                    self.drawers[code] = f
         self.names = names
         self.owner = {n: _owner(n) for n in names}
         self.readers: Dict[Any, List[str]] = {}      # code object -> globals it reads
@@ -73,7 +87,7 @@ class Monitor:
                 self.readers.setdefault(c, []).append(n)
                 self.reader_names[c] = f
 
-    def run(self, what: str, fn) -> dict:
+    def run(self, what: str, fn, watch_seed: bool = False) -> dict:
         ph = {}
         for n in self.names:
             cls, attr = self.owner[n]
@@ -81,13 +95,32 @@ class Monitor:
             setattr(cls, attr, ph[n])
         pending = dict(ph)
         problems: List[dict] = []
-        stats = {"events": 0, "reads_after_write": 0, "write_event": {}}
+        stats = {"events": 0, "reads_after_write": 0, "write_event": {}, "before_write": set(), "seed_event": None, "draws_after_seed": 0}
+        seeding = {"pending": bool(watch_seed)}
 
         def prof(frame, event, arg):
             if event != "call":
                 return
             stats["events"] += 1
-            if pending:
+            if watch_seed:
+                code = frame.f_code
+                if seeding["pending"] and code.co_name == "seed" and code.co_filename.endswith("random.py"):
+                    seeding["pending"] = False
+                    stats["seed_event"] = stats["events"]
+                d = self.drawers.get(code)
+                if d is not None:
+                    if seeding["pending"]:
+                        if len(problems) < 5:
+                            problems.append({"kind": "draw-before-seed", "global": "<process-global generators>", "reader": d, "operation": what})
+                    else:
+                        stats["draws_after_seed"] += 1
+            if pending or (watch_seed and seeding["pending"]):
+                # the package functions entered before the operation's write: cross-check of the STATIC call graph (extractor)
+                mod = frame.f_globals.get("__name__", "")
+                if mod == "primaite" or mod.startswith("primaite."):
+                    qn = frame.f_code.co_qualname.replace(".<locals>", "")
+                    if "<" not in qn:
+                        stats["before_write"].add(f"{mod[len('primaite.'):] if mod != 'primaite' else 'primaite'}:{qn}")
                 for n in list(pending):
                     cls, attr = self.owner[n]
                     if getattr(cls, attr) is not pending[n]:
@@ -111,28 +144,38 @@ class Monitor:
             cls, attr = self.owner[n]
             if getattr(cls, attr) is ph[n]:
                 problems.append({"kind": "not-rewritten", "global": n, "operation": what})
+        if watch_seed and seeding["pending"]:
+            problems.append({"kind": "not-seeded", "global": "<process-global generators>", "operation": what})
         return {"problems": problems, "stats": stats, "result": out}
 
 
-def monitor_build(cfg: Dict, names: List[str], inv, roles) -> dict:
-    """construct an environment from cfg, then reset it, both under the monitor"""
+def monitor_build(cfg: Dict, names: List[str], inv, roles, seeds=(11, 0)) -> dict:
+    """construct an environment from cfg (given a configured `game.seed`), then reset it with each seed argument, all under the monitor"""
     from harness.lib import scen
     from harness.rigs import isolation as iso
     iso.normalise_process_state()
     mon = Monitor(names, inv, roles)
-    r1 = mon.run("construct", lambda: scen.make_env(cfg))
-    env = r1["result"]
-    for a in (0, 1, 2):
-        try:
-            env.step(a % int(env.action_space.n))
-        except Exception:
-            break
-    r2 = mon.run("reset", lambda: env.reset(seed=11))
+    cfg = copy.deepcopy(cfg)
+    cfg.setdefault("game", {})["seed"] = seeds[-1]
+    runs = [mon.run(f"PrimaiteGymEnv(cfg) with game.seed={seeds[-1]}", lambda: scen.make_env(cfg), watch_seed=True)]
+    env = runs[0]["result"]
+    for s in seeds:
+        for a in (0, 1, 2):
+            try:
+                env.step(a % int(env.action_space.n))
+            except Exception:
+                break
+        runs.append(mon.run(f"reset(seed={s})", lambda s=s: env.reset(seed=s), watch_seed=True))
     try:
         env.close()
     except Exception:
         pass
-    return {"problems": r1["problems"] + r2["problems"], "events": r1["stats"]["events"] + r2["stats"]["events"],
-            "reads_after_write": r1["stats"]["reads_after_write"] + r2["stats"]["reads_after_write"],
-            "write_event": {"construct": r1["stats"]["write_event"], "reset": r2["stats"]["write_event"]},
-            "readers_monitored": sorted(set(mon.reader_names.values())), "unresolved": mon.unresolved}
+    before = {"__init__": sorted(runs[0]["stats"]["before_write"]), "reset": sorted(set().union(*[r["stats"]["before_write"] for r in runs[1:]]))}
+    return {"before_write": before, "operations": len(runs),
+            "problems": [p for r in runs for p in r["problems"]], "events": sum(r["stats"]["events"] for r in runs),
+            "reads_after_write": sum(r["stats"]["reads_after_write"] for r in runs),
+            "draws_after_seed": sum(r["stats"]["draws_after_seed"] for r in runs),
+            "seed_event": [r["stats"]["seed_event"] for r in runs],
+            "write_event": {"construct": runs[0]["stats"]["write_event"], "reset": runs[1]["stats"]["write_event"]},
+            "readers_monitored": sorted(set(mon.reader_names.values())), "drawers_monitored": sorted(set(mon.drawers.values())),
+            "unresolved": mon.unresolved}
